@@ -135,8 +135,14 @@ def check_items(prop, items, seed=0, do_search=True, per=6):
             it.c20_ok = bool(results.get(it.id + "A"))
     by_id = {it.id: it for it in items}
     failing = []
+    unfinished = set(results.get("__unfinished__", []))
     for cid, _, _ in cases:
         it = by_id[cid]
+        if any((str(cid) + sfx) in unfinished for sfx in ("", "E", "A")):
+            # no verdict: the kernel-checked evaluation was stopped by the time limit even when run alone
+            it.status = "violation"
+            it.detail = {"kind": "the certificate's evaluation did not finish within the time limit (no verdict)"}
+            continue
         if getattr(it, "meta", None) and it.meta.get("embed_expr") and not results.get(str(cid) + "E"):
             # the compiled program does not embed one of its parts as claimed: Props/C12.v does not apply
             it.status = "violation"
